@@ -157,3 +157,42 @@ Theorem wire_path_agrees :
     norm r = shape_reply tr c w d (blen + (if w_noedns w then 0 else opt_len (wire_opt c w None))).
 Proof. exact wire_path_agrees_l. Qed.
 Print Assumptions wire_path_agrees.
+
+(* ---- name compression computed, not supplied ---- *)
+
+(* "compression only shortens", for the model of the library's compression-map walk *)
+Theorem msg_clen_le_ulen :
+  forall nt m, msg_wf nt m = true -> msg_clen nt m <= msg_ulen m.
+Proof. exact msg_clen_le_ulen_l. Qed.
+Print Assumptions msg_clen_le_ulen.
+
+(* the pipeline that measures with the computed compressed length (the one check_case runs against
+   the observed replies) is an instance of the pipeline every theorem above quantifies over *)
+Theorem computed_length_instance :
+  forall nt tr c q strict dn,
+    serve_msg_c nt tr c q strict dn = serve_msg tr c q strict dn (clen_of nt tr c q strict dn).
+Proof. exact serve_msg_c_instance_l. Qed.
+Print Assumptions computed_length_instance.
+
+Theorem computed_length_instance_raw :
+  forall nt tr c h body strict dn,
+    serve_raw_c nt tr c h body strict dn
+    = serve_raw tr c h body strict dn (match body with Some q => clen_of nt tr c q strict dn | None => 0 end).
+Proof. exact serve_raw_c_instance_l. Qed.
+Print Assumptions computed_length_instance_raw.
+
+(* FULL, without any premise about lengths: over UDP every reply is question + OPT with TC, or at
+   most max(512, min(advertised, 1232)) bytes even uncompressed, or the shaped message unchanged
+   whose compressed length — as the model of Msg.Len computes it — is within that bound.
+   msg_wf: the lengths the records carry agree with the name table (checked on every case). *)
+Theorem udp_size_bound_computed :
+  forall nt c q strict dn r,
+    serve_msg_c nt UDP c q strict dn = Some r ->
+    quest_small q ->
+    (forall d, dn = Some d -> msg_wf nt d = true) ->
+    tc_minimal r = true
+    \/ msg_ulen r <= udp_limit (client_opt q)
+    \/ (exists d, dn = Some d /\ r = norm (shape_pre c (mk_wstate UDP strict q (set_edns0 c q)) d)
+                   /\ msg_clen nt r <= udp_limit (client_opt q)).
+Proof. exact udp_size_bound_c_l. Qed.
+Print Assumptions udp_size_bound_computed.
